@@ -65,6 +65,10 @@ broken translator obligation):
                (tested with `is None` / `is not None` like an optional parameter; assigning a struct value stores
                `some v`).  Methods and properties are looked up through the single-inheritance chain of classes of
                the file (`SCPPacket.bytestring` is `SDPPacket.bytestring` with `self.packed_data` = SCPPacket's).
+               "local:<name>=obj:..." declares an object the function creates itself (`<name> = cls()` / `Class()`):
+               the attribute values the constructor leaves are parameters of the generated definition (the statement
+               itself is dropped), `return <name>` returns the attributes.  `f(<obj>, args...)` as a statement, for a
+               procedure `f` translated earlier with an object parameter of a subset of the attributes, rebinds them.
   events     : return type `ev:<t>`: calls of the methods in EVENT_CALLS (`warnings.warn`, `self._parent._perform_read`,
                `self._parent._perform_write`) are recorded, in order, in a list of `PyEvent` (name, integer arguments,
                bytes argument; the arguments of `warn` - a message - are not modelled) that is the LAST component of
@@ -199,6 +203,9 @@ FUNCS = [
     ("rig/machine_control/packets.py", "SCPPacket.packed_data", [SCP_OBJ], "exc:bytes"),
     ("rig/machine_control/packets.py", "SCPPacket.bytestring", [SCP_OBJ], "exc:bytes"),
     ("rig/machine_control/packets.py", "_unpack_sdp_into_packet", [SDP_OBJ, "bytes"], "exc:none"),
+    ("rig/machine_control/packets.py", "SDPPacket.from_bytestring", ["local:packet=" + SDP_OBJ, "bytes"], "exc:none"),
+    ("rig/machine_control/packets.py", "SCPPacket.from_bytestring", ["local:packet=" + SCP_OBJ, "bytes", "int"],
+     "exc:none"),
     ("rig/machine_control/machine_controller.py", "MachineController.send_signal", ["obj:", "int", "int"],
      "exc:calls:7"),
     ("rig/machine_control/machine_controller.py", "MachineController.count_cores_in_state", ["obj:", "int", "int"],
@@ -481,6 +488,7 @@ class Tr(object):
         self.uses_fuel = False
         self.fn = None
         self.nloops = 0
+        self.local_obj = False        # the object is created by the function itself (`x = cls()`)
         self.objname = "self"         # name of the parameter declared "obj:..."
         self.mro = [cls]              # the class and its base classes (same file), for properties of `self`
         self.consts = {}              # module-level `NAME = <int literal>` of the file
@@ -671,6 +679,8 @@ class Tr(object):
         if (isinstance(n, ast.Subscript) and isinstance(n.value, ast.Name) and isinstance(n.slice, ast.Slice)
                 and self.lty.get(ident(n.value.id), "").startswith("List ")):
             return self.lty[ident(n.value.id)]
+        if isinstance(n, ast.Subscript) and isinstance(n.slice, ast.Slice) and isinstance(n.value, ast.Attribute):
+            return self.tyof(n.value)
         if isinstance(n, ast.IfExp):
             return self.tyof(n.body)
         if isinstance(n, (ast.Compare, ast.BoolOp)) or (isinstance(n, ast.UnaryOp) and isinstance(n.op, ast.Not)):
@@ -702,6 +712,9 @@ class Tr(object):
                 if self.is_list_index(n) or self.pair_dict(n) is not None or self.key_dict(n) is not None:
                     return True
                 if isinstance(n, ast.Call) and self.struct_call(n) is not None:
+                    return True
+                if isinstance(n, ast.Call) and isinstance(n.func, ast.Name) and n.func.id in self.done \
+                        and self.done[n.func.id][0].startswith("exc:") and n.func.id not in self.lty:
                     return True
                 if isinstance(n, ast.Attribute) and isinstance(n.value, ast.Name) and n.value.id == self.objname \
                         and self.types.get(self.objname) == "obj" and n.attr not in self.attrs \
@@ -813,12 +826,14 @@ class Tr(object):
             lean, rows, cols = PAIR_DICTS[pd[0]]
             a, b = self.e(pd[1]), self.e(pd[2])
             return self.raising("(pyPairGet %s %d %d %s %s)" % (lean, rows, cols, a, b))
-        if (isinstance(n, ast.Subscript) and isinstance(n.value, ast.Name) and isinstance(n.slice, ast.Slice)
-                and self.lty.get(ident(n.value.id), "").startswith("List ")):
+        if (isinstance(n, ast.Subscript) and isinstance(n.slice, ast.Slice) and (
+                (isinstance(n.value, ast.Name) and self.lty.get(ident(n.value.id), "").startswith("List "))
+                or (isinstance(n.value, ast.Attribute) and (self.self_attr(n.value) or ("", ""))[0] == "state"
+                    and self.tyof(n.value).startswith("List ")))):
             # l[a:b] (no step): Python's clamping slice
             if n.slice.step is not None:
                 raise NotImplementedError("slice with a step")
-            l = ident(n.value.id)
+            l = ident(n.value.id) if isinstance(n.value, ast.Name) else self.self_attr(n.value)[1]
             a = self.e(n.slice.lower) if n.slice.lower is not None else "(0 : Int)"
             b = self.e(n.slice.upper) if n.slice.upper is not None else "((%s).length : Int)" % l
             return "(pySlice %s %s %s)" % (l, a, b)
@@ -1197,6 +1212,29 @@ class Tr(object):
             return [sa[1]]
         raise NotImplementedError("assignment target " + ast.dump(t)[:80])
 
+    def proc_call(self, s):
+        """`f(obj, args...)` as a statement, `f` translated earlier with an object parameter whose attributes are
+        among ours (same types), returning nothing: -> (callee, Lean call) or None"""
+        if not (isinstance(s, ast.Expr) and isinstance(s.value, ast.Call) and isinstance(s.value.func, ast.Name)):
+            return None
+        c = s.value
+        d = self.done.get(c.func.id)
+        if d is None or not d[1] or not d[1][0].startswith("obj:") or not c.args or c.keywords \
+                or not (isinstance(c.args[0], ast.Name) and c.args[0].id == self.objname):
+            return None
+        if (d[0][4:] if d[0].startswith("exc:") else d[0]) != "none" or len(c.args) != len(d[1]):
+            raise NotImplementedError("call of %s on the object" % c.func.id)
+        spec = [x for x in d[1][0][4:].split(";")[0].split(",") if x]
+        mine = dict(zip(self.attrs, self.attr_specs))
+        args = []
+        for x in spec:
+            a = x.split(":")[0]
+            if mine.get(a) != x:
+                raise NotImplementedError("attribute %s of the callee %s is not an attribute here" % (a, c.func.id))
+            args.append(self.objname + "_" + a)
+        args += [self.e(a) for a in c.args[1:]]
+        return c.func.id, "(%s %s)" % (lean_name(c.func.id), " ".join(args))
+
     def event_stmt(self, s):
         """`X.m(...)` / `v = X.m(...)` for an EVENT_CALLS method -> (event expression, result type, target) or None"""
         if isinstance(s, ast.Expr):
@@ -1418,6 +1456,27 @@ class Tr(object):
                                                        self.exit_with("(Except.error \"AssertionError\")"))
             self.pending = mine
             return self.wrap_pending(pad, text)
+        if (self.local_obj and isinstance(s, ast.Assign) and len(s.targets) == 1 and isinstance(s.targets[0], ast.Name)
+                and s.targets[0].id == self.objname):
+            c = s.value
+            if not (isinstance(c, ast.Call) and isinstance(c.func, ast.Name) and not c.args and not c.keywords
+                    and ((c.func.id == "cls" and self.is_classmethod) or c.func.id in self.classes)):
+                raise NotImplementedError("the local object must be created by `cls()` / `Class()`")
+            # the fresh object is its attribute parameters (the values the constructor leaves)
+            return self.block(rest, ind, tail)
+        pc = self.proc_call(s)
+        if pc is not None:
+            callee, call = pc
+            cattrs = [x.split(":")[0] for x in self.done[callee][1][0][4:].split(";")[0].split(",") if x]
+            t = self.raising(call) if self.done[callee][0].startswith("exc:") else None
+            src = t if t is not None else call
+            text = ""
+            for i, a in enumerate(cattrs):
+                nm = self.objname + "_" + a
+                text += "%slet %s : %s := %s\n" % (pad, nm, self.lty[nm], proj(src, i, len(cattrs)))
+            return self.seq(pad, text, rest, ind, tail)
+        if isinstance(s, ast.Return) and self.local_obj and isinstance(s.value, ast.Name) and s.value.id == self.objname:
+            s = ast.Return(value=None)           # `return <the object>`: its attributes are the result
         ev = self.event_stmt(s)
         if ev is not None:
             expr, result, target = ev
@@ -1932,6 +1991,11 @@ def translate(repo, rel, fname, ptypes, ret, done=None):
     if a.vararg or a.kwarg or a.kwonlyargs or getattr(a, "posonlyargs", []):
         raise NotImplementedError("%s: parameter kinds" % fname)
     params = [x.arg for x in a.args]
+    # a local object (`local:<name>=obj:...`): its attributes - as the constructor leaves them - are parameters
+    local_obj = [t[6:].split("=", 1) for t in ptypes if t.startswith("local:")]
+    ptypes = [t for t in ptypes if not t.startswith("local:")]
+    if len(local_obj) > 1:
+        raise NotImplementedError("%s: more than one local object" % fname)
     # closure variables of a nested function (`name=type` entries after the parameters): extra parameters
     closure = [t.split("=", 1) for t in ptypes if "=" in t]
     ptypes = [t for t in ptypes if "=" not in t]
@@ -1939,6 +2003,11 @@ def translate(repo, rel, fname, ptypes, ret, done=None):
         raise NotImplementedError("%s: closure variables of a function that is not nested" % fname)
     params = params + [c[0] for c in closure]
     ptypes = ptypes + [c[1] for c in closure]
+    if local_obj:
+        if any(p_ == local_obj[0][0] for p_ in params):
+            raise NotImplementedError("%s: local object named like a parameter" % fname)
+        params = [params[0]] * (params[:1] == ["cls"]) + [local_obj[0][0]] + params[(params[:1] == ["cls"]):]
+        ptypes = [local_obj[0][1]] + ptypes
     is_classmethod = "classmethod" in decos
     if is_classmethod:
         if params[:1] != ["cls"]:
@@ -1950,7 +2019,7 @@ def translate(repo, rel, fname, ptypes, ret, done=None):
     attrs, aty, types, sig, recs, lty, skipped, objname = [], [], {}, [], {}, {}, [], "self"
     for p, t in zip(params, ptypes):
         if t.startswith("obj:"):
-            if attrs or (p != "self" and cls is not None and not nested_def):
+            if attrs or (p != "self" and cls is not None and not nested_def and not local_obj):
                 raise NotImplementedError("%s: obj parameter %s" % (fname, p))
             objname = p
             main, _, skip = t[4:].partition(";skip:")
@@ -1979,7 +2048,9 @@ def translate(repo, rel, fname, ptypes, ret, done=None):
     tr.local_enums = local_enums
     tr.module_enums = module_enums(repo, rel, tree)
     tr.obj_spec = next((t for t in ptypes if t.startswith("obj:")), None)
+    tr.attr_specs = [x for x in (tr.obj_spec or "obj:")[4:].split(";")[0].split(",") if x]
     tr.objname = objname
+    tr.local_obj = bool(local_obj)
     tr.mro = class_mro(tree, cls) if cls else [None]
     tr.consts = dict((k, v) for k, v in module_int_consts(tree).items())
     tr.lty = lty
